@@ -355,3 +355,21 @@ Section RunES.
         let '(sf, kids') := run_es n m dt ds' s1 in (sf, kids ++ kids')
     end.
 End RunES.
+
+(* ---- whole Ehrenfest / cumulative runs with the linear-rk4 electronic step (per-pass record kdata of run_rk4) ---- *)
+Section RunXR.
+  Context {T : Type} (O : Ops T).
+  Fixpoint run_eh_rk4 (n : nat) (m : list T) (dt maxdt : T) (start : nat) (ds : list (kdata (T:=T))) (s : tstate (T:=T)) : tstate (T:=T) :=
+    match ds with
+    | [] => s
+    | d :: ds' => run_eh_rk4 n m dt maxdt start ds' (fst (step_eh_rk4 O n m dt maxdt start (ke0 d) (ke1 d) (keigs d) (kvecs d) s))
+    end.
+  Fixpoint run_cum_rk4 (n : nat) (m : list T) (dt maxdt : T) (start : nat) (ds : list (kdata (T:=T))) (s : tstate (T:=T)) (c : cstate (T:=T))
+    : tstate (T:=T) * cstate (T:=T) * list (option (nat * bool)) :=
+    match ds with
+    | [] => (s, c, [])
+    | d :: ds' =>
+        let '(s1, c1, _, att) := step_cum_rk4 O n m dt maxdt start (ke0 d) (ke1 d) (keigs d) (kvecs d) s c in
+        let '(sf, cf, atts) := run_cum_rk4 n m dt maxdt start ds' s1 c1 in (sf, cf, att :: atts)
+    end.
+End RunXR.
